@@ -8,7 +8,7 @@
    directly in an attribute graph of u"; before a b l = a occurs strictly before b in l;
    wf gr = no node and no graph object occurs twice in the scope. *)
 From Coq Require Import ZArith List Bool Arith Lia Permutation Relations.
-From IRV Require Import Base.Exn C12.Model C12.Proofs1 C12.Proofs2 C12.Proofs3 C12.Proofs4 C12.Proofs5 C12.Proofs6.
+From IRV Require Import Base.Exn C12.Model C12.Proofs1 C12.Proofs2 C12.Proofs3 C12.Proofs4 C12.Proofs5 C12.Proofs6 C12.Proofs7.
 Import ListNotations.
 
 (* Sample scope: graph 0 = [n0 (If with body graph 1 = [n2 uses n1; n3 uses n2]); n1; n4 uses n0, n1(twice), None].
@@ -75,12 +75,12 @@ Print Assumptions C12_cycle_atomic.
 
 (* Stability: a scope in which every graph already satisfies the order predicate of C12_respects_deps
    (`ordered`) and whose references are well scoped (`well_scoped`: a used value is produced in the
-   user's graph or in a graph enclosing it — the property's quantifier) is left exactly as it was.
-   (The conclusion covers both outcomes; with C12_cycle_iff, Ok is returned iff there is no cycle.)
+   user's graph or in a graph enclosing it — the property's quantifier) is sorted successfully and
+   every graph is left exactly as it was.
    well_scoped cannot be dropped: ex_illscoped below is ordered, yet its root graph is rearranged. *)
 Theorem C12_stable :
-  forall gr, wf gr -> well_scoped gr -> ordered gr -> snd (sort_graph gr) = orders gr.
-Proof. exact sort_stable. Qed.
+  forall gr, wf gr -> well_scoped gr -> ordered gr -> sort_graph gr = (Ok tt, orders gr).
+Proof. exact sort_ordered_ok. Qed.
 Print Assumptions C12_stable.
 
 (* hypotheses satisfiable by a scope with a captured value: graph 0 = [n1; n0 (body graph 1 = [n2 uses n1]) uses n1] *)
